@@ -1399,7 +1399,7 @@ def _local_aliases(parsed, log) -> None:
                 continue
             # the alias must be assigned before its uses in source order (single binding: any earlier use would be an UnboundLocalError anyway)
             r = _Rename(cands, {})
-            used_before = False
+            keep_pass = {id(y) for b in fn.body for y in ast.walk(b) if isinstance(y, ast.Pass)}
             for b in fn.body:
                 r.visit(b)
             if r.n:
@@ -1411,6 +1411,13 @@ def _local_aliases(parsed, log) -> None:
                         return ast.copy_location(ast.Pass(), node) if id(node) in drop else node    # the chain is read again at every use
                 for i, b in enumerate(fn.body):
                     fn.body[i] = Drop().visit(b)
+                # a body `tag = header.tag; return <test on tag>` is the one-expression helper `return <test on header.tag>` again
+                for holder in [fn] + [x for b in fn.body for x in ast.walk(b)]:
+                    for fld in ("body", "orelse", "finalbody"):
+                        lst = getattr(holder, fld, None)
+                        if isinstance(lst, list) and any(isinstance(y, ast.Pass) and id(y) not in keep_pass for y in lst):
+                            kept = [y for y in lst if not (isinstance(y, ast.Pass) and id(y) not in keep_pass)]
+                            setattr(holder, fld, kept or [y for y in lst if isinstance(y, ast.Pass)][:1])
         if n:
             log.setdefault(m, {})["locals bound once to an attribute chain read as the chain"] = n
             ast.fix_missing_locations(tree)
